@@ -89,6 +89,23 @@ impl Monitor for C09 {
                 ctx.check(&Case::new(ev, "boundary", &s, ph), &|c, st| self.judge(c, st));
             }
         }
+        // flat chains of + and - whose running Integer total walks along +-2^63: the step that leaves the
+        // range must turn the total into the Float of the operands' double values, not earlier, not later
+        let nw = ctx.tier.pick(40_000u64, 800_000);
+        for i in 0..nw {
+            if ctx.mine() {
+                let mut rng = ctx.rng("walk", i);
+                let s = super::c06::boundary_walk(&mut rng);
+                let ph = Val::NI(if s.contains('@') { i64::MAX - rng.below(3) as i64 } else { 0 });
+                ctx.check(&Case::new(ev, "walk", &s, ph), &|c, st| {
+                    let v = self.judge(c, st);
+                    if let Verdict::Pass { .. } = v {
+                        st.inc("walks_confirmed");
+                    }
+                    v
+                });
+            }
+        }
         // rounding functions on a dense set of fractions
         let n0 = ctx.tier.pick(20_000u64, 300_000);
         for i in 0..n0 {
